@@ -190,7 +190,12 @@ class LayerImpl:
             self.neurs = [ProbeNeuron(n + 1, (3,), B, self.log) for n in range(self.nn)]
             if self.tr:
                 cs = [(f"c{c + 1}", self.conns[c], _tr(True, PT[c])) for c in range(self.nc)]
-                ns = [(f"n{n + 1}", self.neurs[n], _tr(True, NU[n])) for n in range(self.nn)]
+                # with several connections the neuron groups' transforms work IN PLACE (like nn.ReLU(inplace=True)): every
+                # group must be handed its own combination of the connection outputs (seeded C17-m13)
+                def _tr_inplace(off):
+                    return lambda v, **kw: v.add_(off)
+                ns = [(f"n{n + 1}", self.neurs[n], _tr_inplace(NU[n]) if self.nc >= 2 else _tr(True, NU[n]))
+                      for n in range(self.nn)]
             else:
                 cs = [(f"c{c + 1}", self.conns[c]) for c in range(self.nc)]
                 ns = [(f"n{n + 1}", self.neurs[n]) for n in range(self.nn)]
